@@ -269,14 +269,16 @@ class GetAccessorForUrl(Contract):
     use_at_call_sites = False
     configs = tuple(itertools.product(("/data/dataset", "file:///data/dataset", "precomputed://file:///data/dataset",
                                        "http://host/ds", "precomputed://https://host/ds/"),
-                                      ("sharded", "plain", "mixed", "missing", "garbage"),
+                                      ("sharded", "plain", "mixed", "missing", "garbage", "noscales", "emptyscales"),
                                       ({}, {"flat": True, "gzip": False, "compresslevel": 3}))) + \
         (("ftp://host/x", "missing", {}), ("file://otherhost/data", "missing", {}))
 
     def setup(self, c, cfg):
         url, kind, opts = cfg
         self.cfg = cfg
-        content = {"sharded": SHARDED_INFO, "plain": PLAIN_INFO, "mixed": MIXED_INFO, "garbage": b"{not json"}.get(kind)
+        content = {"sharded": SHARDED_INFO, "plain": PLAIN_INFO, "mixed": MIXED_INFO, "garbage": b"{not json",
+                   "noscales": b'{"@type": "neuroglancer_legacy_mesh"}',
+                   "emptyscales": b'{"type":"image","data_type":"uint8","num_channels":1,"scales":[]}'}.get(kind)
         if "http" in url:
             w = get_http()
             body = SBytes.from_concrete(content) if content is not None else SBytes.from_concrete(b"")
